@@ -3,7 +3,7 @@ import ast
 
 from ..core import AnalysisError, dotted, call_name, src, walk_local
 from ..flow import leaves
-from ..rules import flow_of, state_writes, facts_at, canon, cmp_norm
+from ..rules import flow_of, state_writes, facts_at, canon, cmp_norm, gexpand, fold_compare
 from ..bounds import upper_bounds, taint, contains_noise, sig, MIN_NAMES
 
 EXPLANATION = ("Clamp discipline decided on def-use-expanded expressions: (R1) the ideal battery's granted power is a minimum "
@@ -14,7 +14,8 @@ EXPLANATION = ("Clamp discipline decided on def-use-expanded expressions: (R1) t
                "noise may have lowered has passed a max(., clean) and one it may have raised a min(., clean...); (R4) in the "
                "continuous routine the pilot's SoC rate is capped by the maximum SoC rate before any use; (R5) constructor "
                "and reset store a caller-supplied charge only on the non-rejecting edge of `charge > capacity`, whose other "
-               "edge raises; (R6) the EVSE stores exactly the validated pilot it forwards to the EV.")
+               "edge raises; (R8) the region tests and the pieces of the continuous closed form use the same (pilot-adjusted) breakpoint - with "
+               "the nominal one in either, the piece is evaluated outside its region and the rate leaves [0, pilot]; (R6) the EVSE stores exactly the validated pilot it forwards to the EV.")
 NOT_DECIDED = ("0 <= rate <= pilot for the continuous closed form (follows from properties of exp, not from shape); "
                "monotonicity of the stored charge under the closed form")
 
@@ -60,32 +61,53 @@ def rule_stepwise(ck, rid="C03.R2"):
     defs = fl.defs_at(n, var)
     ck.floor(rid, len(defs), 2, "definitions of the granted power reaching the state update")
     DECL = frozenset({"self._soc", "self._transition_soc", "self._max_power"})
+
+    def region(pre):
+        def decide(l, op, r):
+            if {l, r} != {"self._soc", "self._transition_soc"}:
+                return None
+            below = (l == "self._soc")          # soc (op) transition
+            if op in ("<", "<="):
+                return pre if below else not pre
+            return None
+        return decide
+    n_cases = 0
     for d in sorted(defs, key=lambda x: x.id):
         how = fl.def_how(d, var)
         if how[0] != "assign":
             raise AnalysisError(f"_charge_stepwise: definition form of {var} not recognised")
-        e = fl.expand(how[1], d)
-        pre = None
-        for a, tr in facts_at(fl, d):
-            c = cmp_norm(a, tr)
-            if c and {canon(c[0]), canon(c[2])} == {"self._soc", "self._transition_soc"}:
-                pre = (canon(c[0]) == "self._soc" and c[1] in ("<", "<="))
-        if pre is None:
+        e0 = gexpand(fl, how[1], d)
+        feasible = []
+        for pre in (True, False):
+            ok = True
+            for a, tr in facts_at(fl, d):
+                v = fold_compare(gexpand(fl, a, d), region(pre))
+                if isinstance(v, ast.Constant) and isinstance(v.value, bool) and v.value != tr:
+                    ok = False
+            if ok:
+                feasible.append(pre)
+        if not feasible:
             raise AnalysisError("_charge_stepwise: cannot tell the pre-transition from the rampdown branch")
-        noisy = contains_noise(e)
-        ub = upper_bounds(e)
-        need = [("pilot x voltage", pilot_power(f)), ("fill rate", FILL)]
-        if pre or noisy:
-            need.append(("maximum power", MAXP))
-        if not pre:
-            # the declining maximum bounds the clean value; after additive noise the hard maximum must bound it
-            if not noisy:
-                need.append(("declining maximum power", DECL))
-        for name, s in need:
-            ok = s in ub or (s == MAXP and not noisy and DECL in ub and not pre)
-            ck.require(ok, rid, f, how[1], ok=f"{'pre-transition' if pre else 'rampdown'}{' + noise' if noisy else ''}: power <= {name}",
-                       bad=f"{'pre-transition' if pre else 'rampdown'}{' + noise' if noisy else ''} branch: the power reaching the battery state is not bounded by {name}",
-                       sink=f"stepwise:{'pre' if pre else 'ramp'}:{'noise' if noisy else 'clean'}:{name}")
+        for pre in feasible:
+            n_cases += 1
+            e = fold_compare(e0, region(pre))
+            if "__gamma__" in canon(e) and "self._transition_soc" in canon(e):
+                raise AnalysisError("_charge_stepwise: a region-dependent choice is not decided by `soc < transition soc`")
+            noisy = contains_noise(e)
+            ub = upper_bounds(e)
+            need = [("pilot x voltage", pilot_power(f)), ("fill rate", FILL)]
+            if pre or noisy:
+                need.append(("maximum power", MAXP))
+            if not pre:
+                # the declining maximum bounds the clean value; after additive noise the hard maximum must bound it
+                if not noisy:
+                    need.append(("declining maximum power", DECL))
+            for name, s_ in need:
+                ok = s_ in ub or (s_ == MAXP and not noisy and DECL in ub and not pre)
+                ck.require(ok, rid, f, how[1], ok=f"{'pre-transition' if pre else 'rampdown'}{' + noise' if noisy else ''}: power <= {name}",
+                           bad=f"{'pre-transition' if pre else 'rampdown'}{' + noise' if noisy else ''} branch: the power reaching the battery state is not bounded by {name}",
+                           sink=f"stepwise:{'pre' if pre else 'ramp'}:{'noise' if noisy else 'clean'}:{name}")
+    ck.floor(rid, n_cases, 3, "(definition, region) cases of the granted power")
 
 
 def rule_taint(ck, rid="C03.R3"):
@@ -147,6 +169,20 @@ def rule_pilot_cap(ck, rid="C03.R4"):
                 return True
         return False
     guards = {n for n in cfg.nodes if bounded_edge(n)}
+
+    def cond_cap(val):
+        """`maxn if var > maxn else var` (any orientation): each arm is the bound or the value on the edge where it is below the bound."""
+        if not isinstance(val, ast.IfExp):
+            return False
+        from ..flow import edge_facts
+        for arm, lab in ((val.body, True), (val.orelse, False)):
+            if canon(arm) == maxn:
+                continue
+            if canon(arm) == var and any((c := cmp_norm(a, tr)) and canon(c[0]) == var and c[1] in ("<", "<=") and canon(c[2]) == maxn
+                                         for a, tr in edge_facts(val.test, lab)):
+                continue
+            return False
+        return True
     n_uses = 0
     for n in cfg.nodes:
         for e in cfg.node_exprs(n):
@@ -157,6 +193,8 @@ def rule_pilot_cap(ck, rid="C03.R4"):
                 par = _parent(e, u)
                 if isinstance(par, ast.Compare) and maxn in canon(par):
                     continue
+                if isinstance(e, ast.Assign) and cond_cap(e.value) and var in store_names(e):
+                    continue
                 if isinstance(par, (ast.Call, ast.List, ast.Tuple)) and maxn in canon(par) and ("min" in canon(par)):
                     continue
                 n_uses += 1
@@ -166,7 +204,7 @@ def rule_pilot_cap(ck, rid="C03.R4"):
                     val = how[1] if how[0] == "assign" else None
                     if val is not None:
                         ev = fl.expand(val, d)
-                        if canon(val) == maxn or (frozenset(sig(fl.expand(ast.Name(id=maxn, ctx=ast.Load()), d))) in upper_bounds(ev)) \
+                        if canon(val) == maxn or cond_cap(val) or (frozenset(sig(fl.expand(ast.Name(id=maxn, ctx=ast.Load()), d))) in upper_bounds(ev)) \
                                 or (isinstance(ev, ast.Call) and call_name(ev) in MIN_NAMES and maxn in canon(val)):
                             continue
                     others = set(all_defs) - {d}
@@ -176,6 +214,10 @@ def rule_pilot_cap(ck, rid="C03.R4"):
                            bad=f"`{var}` (the pilot's SoC rate) can reach this use without having been capped by `{maxn}`: the battery could charge above its maximum power",
                            sink="pilot-dsoc-uncapped")
     ck.floor(rid, n_uses, 3, f"uses of {var} after the cap")
+
+
+def store_names(stmt):
+    return {t.id for tg in stmt.targets for t in ast.walk(tg) if isinstance(t, ast.Name)}
 
 
 def _parent(root, node):
@@ -227,6 +269,10 @@ def run(ck):
     rule_taint(ck)
     rule_pilot_cap(ck)
     rule_init_guards(ck)
+    # a closed form evaluated with the wrong breakpoint yields a negative rate (the exponent's sign flips): the bounds need the
+    # region tests and the pieces to agree on the pilot-adjusted breakpoint
+    from .c14 import rule_breakpoint
+    rule_breakpoint(ck, rid="C03.R8")
     from .c13 import rule_validate_before_mutate
     rule_validate_before_mutate(ck, rid="C03.R6")
     # the clamps only bound the rate if the conversions between A, kW, kWh and SoC-per-period are exact (units + truncation)
